@@ -20,10 +20,13 @@ BANNER = b'myhost'
 
 
 class StubSigner:
-    def __init__(self, idx, log, str_pubkey=False):
+    generation = 0      # bumped for every make_auth(): keys of different connect() attempts have different public keys
+
+    def __init__(self, idx, log, str_pubkey=False, gen=0):
         self.idx = idx
         self.log = log
         self.str_pubkey = str_pubkey
+        self.gen = gen
 
     def Sign(self, data):
         self.log.append(('sign', self.idx, data))
@@ -32,8 +35,8 @@ class StubSigner:
     def GetPublicKey(self):
         self.log.append(('pubkey', self.idx))
         if self.str_pubkey:
-            return 'PUBKEY%d' % self.idx
-        return b'PUBKEY%d' % self.idx
+            return 'PUBKEY%d.%d' % (self.gen, self.idx)
+        return b'PUBKEY%d.%d' % (self.gen, self.idx)
 
 
 def _sig_key_of(payload):
@@ -50,7 +53,13 @@ def make_auth(ctx, nkeys, accept, maxdata=4096, token_arg0=sim.AUTH_TOKEN, str_p
     log = []
     auth = sim.AuthModel(accept, tokens=lambda i: ctx.bytes('token', 20), sig_key_of=_sig_key_of, token_arg0=token_arg0, cnxn_maxdata=maxdata)
     auth.sign_log = log
-    keys = [StubSigner(i, log, str_pubkey) for i in range(nkeys)]
+    gen = getattr(ctx, '_c05_gen', 0)
+    try:
+        ctx._c05_gen = gen + 1
+    except Exception:
+        pass
+    keys = [StubSigner(i, log, str_pubkey, gen) for i in range(nkeys)]
+    auth.gen = gen
     return auth, keys
 
 
@@ -146,7 +155,7 @@ def _one_connect(ctx, w, st_holder, cfg, mods, tag):
     if exp_pub and not cb_raises:
         ctx.check(len(pub_pk) == 1, tag + 'public key offered exactly once after all keys were rejected', detail=str(len(pub_pk)))
         if pub_pk:
-            ctx.check(pub_pk[0].payload == b'PUBKEY0\0', tag + "public key packet is the first key's public key, NUL-terminated", detail=repr(norm(pub_pk[0].payload)))
+            ctx.check(pub_pk[0].payload == (b'PUBKEY%d.0' % auth.gen) + b'\0', tag + "public key packet is the first key's public key (of THIS connect call), NUL-terminated", detail=repr(norm(pub_pk[0].payload)))
             ctx.check(pub_pk[0].index > max([p.index for p in sig_pk] or [-1]), tag + 'public key only after every signature attempt')
     else:
         ctx.check(len(pub_pk) == 0, tag + 'no public key offered unless all keys were rejected (and the callback returned)', detail=str(len(pub_pk)))
